@@ -287,7 +287,17 @@ def check_sc(crate, rep, cfg):
     rep.add("C02.SC", "C02.SC:and=>JumpIfFalseOrPop", ok, b.where(fa[0][0]) if fa else b.where(0), "`and` emits JumpIfFalseOrPop (on the true edge of `op == And`), "
             "`or` emits JumpIfTrueOrPop" + ("" if ok else " — VIOLATED"))
     # order: compile_expr(left) < emission < compile_expr(right) < patch
+    # the emission point is the Chunk::add call that receives the conditional-jump instruction (the aggregate itself may be built earlier)
+    def add_block_of(agg):
+        trx = Tracer(b)
+        for b2, t2 in find_calls(b, ["parsing::instructions::Chunk::add"]):
+            if any(l.kind == "agg" and l.detail[-2:] == (agg[0], agg[1]) for l in trx.operand(t2["args"][1])):
+                return b2
+        return agg[0]
     if fa:
+        fa = [(add_block_of(fa[0]),) + tuple(fa[0][1:])]
+        if ta:
+            ta = [(add_block_of(ta[0]),) + tuple(ta[0][1:])]
         fbb = fa[0][0]
         lefts = [bb for bb, t in find_calls(b, ["parsing::compiler::Compiler::compile_expr"]) if any(".left" in l.projs for l in tr.operand(t["args"][1]))]
         rights = [bb for bb, t in find_calls(b, ["parsing::compiler::Compiler::compile_expr"]) if any(".right" in l.projs for l in tr.operand(t["args"][1]))]
